@@ -17,7 +17,7 @@ use crate::for_static;
 use volute::Lut;
 
 /// Every observation of one table through one type, in a fixed order: (label, value).
-fn observe<L: Tab>(t: &TT, ops: &[String], others: &[TT], canon: bool) -> Vec<(String, String)> {
+pub fn observe<L: Tab>(t: &TT, ops: &[String], others: &[TT], canon: bool) -> Vec<(String, String)> {
     let n = t.n;
     let mut v: Vec<(String, String)> = Vec::new();
     let mut push = |k: String, r: Result<String, String>| {
